@@ -53,13 +53,13 @@ let render (p : pool) (errs : err list) : string =
     | None -> "x"
     | Some [] -> "-"
     | Some l -> csv_ints (List.sort compare (List.map (fun t -> int_of_n t.t_id) l)) in
-  (* the price heap: stale counter / number of entries : live entries (of indexed remote txs; which of
-     several equal stale entries was popped is not observable) *)
+  (* the price heap: its live entries (of indexed remote txs).  The stale counter and the stale entries
+     are not observable: they depend on the order in which runReorg visits the accounts *)
   let live = List.filter (fun t -> all_get_remote p.p_all t.t_id <> None) p.p_heap in
   let h = csv_ints (List.sort compare (List.map (fun t -> int_of_n t.t_id) live)) in
-  Printf.sprintf "e=%s p=%s q=%s n=%s s=%d/%d l=%s a=%s g=%s t=%s j=%s sl=%s h=%s/%d:%s"
+  Printf.sprintf "e=%s p=%s q=%s n=%s s=%d/%d l=%s a=%s g=%s t=%s j=%s sl=%s h=%s"
     e (render_lists p.p_pending) (render_lists p.p_queue) n (List.length p.p_pending) (List.length p.p_queue)
-    (csv_ints locals) a (string_of_z p.p_gasprice) t j (string_of_z (all_slots p.p_all)) (string_of_z p.p_stales) (List.length p.p_heap) h
+    (csv_ints locals) a (string_of_z p.p_gasprice) t j (string_of_z (all_slots p.p_all)) h
 
 let rec perms = function
   | [] -> [[]]
